@@ -30,7 +30,8 @@ EXTENDS Integers, FiniteSets, Sequences, SequencesExt, TLC, Json, IOUtils
 CONSTANTS Grid,        \* "full" | "reduced": which value sets the inputs are built from
           MaxIn,       \* up to this many inputs
           DefTruths,   \* default truths offered, in units of 1/U (numbers in [0, U])
-          NShards, Only   \* the cases are dealt into NShards shards; this run works on the shards in Only
+          NShards, Only,  \* the cases are dealt into shards; this run works on the shards in Only
+          Deep         \* TRUE: also check the costly lemmas OrderFree and Ignored
 
 VARIABLE case          \* a marker [shard |-> k] or a table row (declared first: nothing may shadow it)
 
@@ -109,19 +110,30 @@ Row(dt, ins) == [dt |-> dt, ins |-> ins, switch |-> SetToSeq(Switch(dt, ins)), p
 
 (* ---------------------------------------------------------------- cases, shards, the table *)
 InputSeq == SetToSeq(Inputs)
-\* shard k: the lists whose first input is the j-th input with j % NShards = k; the empty list goes to shard 0
+\* shard (k, n): the lists of n inputs whose first input is the j-th input with j % NShards = k (the empty list: (0, 0)).
+\* The model starts in one marker state per shard; the single step Emit computes the rows of that shard, writes them
+\* as JSON for the harness and moves to each of them, so that TLC's workers share the work and every row is a state.
 Firsts(k) == {InputSeq[j] : j \in {j \in 1..Len(InputSeq) : j % NShards = k}}
-\* (written so that TLC enumerates the lists without first building the set of them)
-ShardRows(k) == (IF k = 0 THEN {Row(dt, <<>>) : dt \in DefTruths} ELSE {})
-                \cup UNION {{Row(dt, <<a>> \o r) : dt \in DefTruths, a \in Firsts(k), r \in [1..(n - 1) -> Inputs]} : n \in 1..MaxIn}
+ShardRows(k, n) == IF n = 0 THEN (IF k = 0 THEN {Row(dt, <<>>) : dt \in DefTruths} ELSE {})
+                   ELSE {Row(dt, <<a>> \o r) : dt \in DefTruths, a \in Firsts(k), r \in [1..(n - 1) -> Inputs]}
+
+\* compact form of a row for the JSON table (arrays of integers; kinds: none 0, Boolean 1, number 2, not a number 3):
+\*   <<dt, inputs, switch, priority, trusted, weighted>>, input = <<sel, truth kind, truth n, imp, value kind, value n>>,
+\*   every arbiter a list of admitted outputs <<value kind, num, den, truth kind, num, den>>
+KCode(k) == CASE k = "none" -> 0 [] k = "bool" -> 1 [] k = "num" -> 2 [] k = "str" -> 3
+EncIn(i) == <<IF i.sel THEN 1 ELSE 0, KCode(i.truth.k), i.truth.n, i.imp, KCode(i.val.k), i.val.n>>
+EncOut(o) == <<KCode(o.val.k), o.val.n, o.val.d, KCode(o.truth.k), o.truth.n, o.truth.d>>
+EncOuts(s) == [i \in 1..Len(s) |-> EncOut(s[i])]
+EncRow(r) == <<r.dt, [i \in 1..Len(r.ins) |-> EncIn(r.ins[i])], EncOuts(r.switch), EncOuts(r.priority), EncOuts(r.trusted), EncOuts(r.weighted)>>
 
 IsRow == "ins" \in DOMAIN case
-Init == case \in {[shard |-> k] : k \in Only}
-Emit(k) == /\ ~IsRow /\ case.shard = k
-           /\ LET rs == ShardRows(k) IN
-              /\ JsonSerialize(IOEnv.TABLE_OUT \o "-" \o ToString(k) \o ".json", SetToSeq(rs))
-              /\ case' \in rs
-Next == \E k \in Only : Emit(k)
+Init == case \in {[shard |-> k, n |-> n] : k \in Only, n \in 0..MaxIn}
+Emit == /\ ~IsRow
+        /\ LET rs == ShardRows(case.shard, case.n) IN
+           /\ JsonSerialize(IOEnv.TABLE_OUT \o "-" \o ToString(case.shard) \o "-" \o ToString(case.n) \o ".json",
+                            LET q == SetToSeq(rs) IN [i \in 1..Len(q) |-> EncRow(q[i])])
+           /\ case' \in rs
+Next == Emit
 Spec == Init /\ [][Next]_case
 
 (* ---------------------------------------------------------------- lemmas checked on every case *)
@@ -163,7 +175,7 @@ Convex == IsRow => LET ins == case.ins  dt == case.dt
         /\ o.truth.n * U > dt * o.truth.d /\ o.truth.n <= o.truth.d
         /\ o.truth.n * U <= SetMax({FixTruth(ins[i].truth) : i \in pos}) * o.truth.d
 \* the weighted average does not depend on the order of the inputs
-OrderFree == IsRow => AsSet(case.weighted) = Weighted(case.dt, Reverse(case.ins))
+OrderFree == (IsRow /\ Deep) => AsSet(case.weighted) = Weighted(case.dt, Reverse(case.ins))
 \* one selected input of positive importance: all four arbiters pass its value exactly when it is sufficient
 Single == IsRow => LET ins == case.ins  dt == case.dt  s == Sel(ins) IN
     (Cardinality(s) = 1 /\ \A i \in s : ins[i].imp > 0 /\ ins[i].val.k = "num" /\ \A j \in 1..Len(ins) : ins[j].val.k = "num") =>
@@ -173,7 +185,7 @@ Single == IsRow => LET ins == case.ins  dt == case.dt  s == Sel(ins) IN
               o.val.n = ins[i].val.n * o.val.d /\ o.truth.n * U = FixTruth(ins[i].truth) * o.truth.d
 \* whatever an unselected input carries is ignored (this is what licenses two representatives in the table)
 AnyUnselected == [sel : {FALSE}, truth : Truths, imp : Imps, val : Values \ {NotNumber}]
-Ignored == IsRow => LET ins == case.ins  dt == case.dt IN
+Ignored == (IsRow /\ Deep) => LET ins == case.ins  dt == case.dt IN
     \A i \in 1..Len(ins) : ~ins[i].sel =>
         \A u \in AnyUnselected :
             LET ins2 == [ins EXCEPT ![i] = [u EXCEPT !.val = IF ins[i].val.k = "num" THEN u.val ELSE ins[i].val]]
